@@ -212,15 +212,21 @@ def run(repo, rep, tier):
                 rep.obs[-1].ok = ok
                 rep.obs[-1].detail = "" if ok else "any(...) comparison is not case-folded on both sides"
     # str branch
-    loops = [n for n in body_walk(getitem) if isinstance(n, ast.For) and U(n.iter) == "self._items"]
+    # the scan over self._items, as a for statement or as the generator of next(...)/a comprehension
+    scans = [(n.target, [n]) for n in body_walk(getitem) if isinstance(n, ast.For) and U(n.iter) == "self._items"]
+    for n in body_walk(getitem):
+        if isinstance(n, (ast.GeneratorExp, ast.ListComp)) and len(n.generators) == 1 and U(n.generators[0].iter) == "self._items" \
+                and U(n.elt) == U(n.generators[0].target):
+            scans.append((n.generators[0].target, list(n.generators[0].ifs)))
     ok = False
-    for l in loops:
-        for n in ast.walk(l):
-            if isinstance(n, ast.Compare) and isinstance(n.ops[0], ast.Eq):
-                a, b = _fold_of(n.left), _fold_of(n.comparators[0])
-                names = {a[0], b[0]}
-                if not a[1] and not b[1] and key in names and any(x.endswith(".name") for x in names):
-                    ok = True
+    for tgt, scopes in scans:
+        for sc in scopes:
+            for n in ast.walk(sc):
+                if isinstance(n, ast.Compare) and len(n.ops) == 1 and isinstance(n.ops[0], ast.Eq):
+                    a, b = _fold_of(n.left), _fold_of(n.comparators[0])
+                    names = {a[0], b[0]}
+                    if not a[1] and not b[1] and key in names and f"{U(tgt)}.name" in names:
+                        ok = True
     rep.ob("C19.R2", getitem, "lookup by name compares item.name == key exactly", ok,
            "" if ok else "name lookup must return the item with exactly that name", key="C19.R2@getitem:exact")
     ln = repo.func("containers.py", "ItemsList.__len__")
